@@ -4,7 +4,6 @@ import time
 import os
 import random
 
-from .. import adjust
 from .. import config_common as cc
 from .. import coqterm as ct
 from .. import gen_tree as gt
@@ -94,7 +93,7 @@ def _dict_write(op):
         (op[0] == "setdefault" and op[4] is not None and isinstance(op[4]["d"], dict))
 
 
-class C19(adjust.Remember, Prop):
+class C19(Prop):
     id = "C19"
     corr_module = "Corr.C19Corr"
     preds = ("corr", "spec", "adj_fc19", "adj_fc06a", "adj_both")
@@ -449,8 +448,8 @@ class C19(adjust.Remember, Prop):
         st = ct.result(obs["state"], ns.state)
         if obs.get("req_tids") is None:
             # build error or unusable request: compare the build only
-            return self.remember(case, "(mk %s %s %s [] None %s %s %s (Ok ([], None)))" % (
-                ns.sub(case["script"]), init, bodies, ct.b(case["dedupe"]), envs, st))
+            return "(mk %s %s %s [] None %s %s %s (Ok ([], None)))" % (
+                ns.sub(case["script"]), init, bodies, ct.b(case["dedupe"]), envs, st)
         reqs = ct.lst([ct.pair(ct.s(nm), self._scall(case, tid))
                        for nm, tid in zip(obs.get("req_names") or case["requests"], obs["req_tids"])])
         dflt = ct.opt(self._scall(case, obs["dflt_tid"]) if obs["dflt_tid"] is not None else None)
@@ -462,8 +461,8 @@ class C19(adjust.Remember, Prop):
             o = "(Ok (%s, %s))" % (recs, ct.opt(ct.err(esc) if esc is not None else None))
         else:
             o = "(Err %s)" % ct.err(obs.get("err", "Exception"))
-        return self.remember(case, "(mk %s %s %s %s %s %s %s %s %s)" % (
-            ns.sub(case["script"]), init, bodies, reqs, dflt, ct.b(case["dedupe"]), envs, st, o))
+        return "(mk %s %s %s %s %s %s %s %s %s)" % (
+            ns.sub(case["script"]), init, bodies, reqs, dflt, ct.b(case["dedupe"]), envs, st, o)
 
     # ---- classification ----------------------------------------------------------
     def _calls(self, case, obs):
@@ -496,7 +495,7 @@ class C19(adjust.Remember, Prop):
             kinds.append("hooks" if case["requests"] else "default")
         return ":".join(kinds)
 
-    def finding_of(self, case, obs):
+    def finding_of(self, case, obs, verdict=None):
         """Signatures (which mechanism is present) are read off the case; the judgement is made in Coq:
         the finding is named only if the specification with that finding's expectation substituted
         accepts the observation.
@@ -522,7 +521,7 @@ class C19(adjust.Remember, Prop):
                 path = hm.get(tid, ())
                 if len(path) > 1 and any(cfg for cfg in path[1:]):
                     unnamed = True
-        v = self.verdicts(case)
+        v = verdict or {}
         if unnamed and v.get("adj_fc19"):
             return "F-C19"
         if dictwrite and v.get("adj_fc06a"):
